@@ -188,6 +188,7 @@ type Eng struct {
 	localRefs    map[string]bool
 	inlining     map[*ast.FuncLit]bool
 	goOrd        int
+	funcIndex    *funcIndex
 	specPkgPath  string
 	recVar       types.Object
 	propID       string
@@ -204,7 +205,11 @@ func (e *Eng) fresh(prefix string) string {
 	return fmt.Sprintf("%s!%d", prefix, e.nfresh)
 }
 
-func smtSym(s string) string { return "|" + strings.ReplaceAll(s, "|", "_") + "|" }
+func smtSym(s string) string {
+	// quoted SMT-LIB symbols may not contain | or backslash (cvc5 is strict about it)
+	s = strings.NewReplacer("|", "_", "\\", "%").Replace(s)
+	return "|" + s + "|"
+}
 
 func (e *Eng) declare(name, sort string) string {
 	n := smtSym(name)
@@ -637,6 +642,16 @@ func (e *Eng) heapSym(st *State, name, sort string) string {
 		sy := smtSym("H" + ep + "$" + name)
 		e.declareOnce(fmt.Sprintf("(declare-const %s %s)", sy, sort))
 		return sy
+	}
+	// fields declared `stable` are never written by a callee: an array not written locally keeps one symbol forever
+	if e.con != nil && len(e.con.Stable) > 0 {
+		for _, sf := range e.con.Stable {
+			if frameMatch(name, sf) {
+				t := sym("S")
+				st.heap[name] = t
+				return t
+			}
+		}
 	}
 	for i := len(st.sel) - 1; i >= 0; i-- {
 		if frameMatchAny(name, st.sel[i].entries) {
